@@ -30,7 +30,7 @@ def _opt_types():
 def plan(tier, seed):
     specs = []
     i = 0
-    n_rand = 300 if tier == "quick" else 6000
+    n_rand = 300 if tier == "quick" else 20000
     for T in _opt_types():
         specs.append({"tier": tier, "type": T, "mode": "structured", "seed": env.shard_seed(i)}); i += 1
         k = 1 if tier == "quick" else 3
